@@ -814,7 +814,7 @@ func (s *c14Session) runSSH(a vh.Args, reqs []string) ([]string, error) {
 		id := s.ids[q]
 		ops[i] = c14SSHOp{"get", id.String()}
 	}
-	res, _, err := c14RunSSHChild(a, s.dir, 1, ops, 8*time.Second)
+	res, _, err := c14RunSSHChild(a, s.dir, 1, ops, 5*time.Second)
 	return res, err
 }
 
